@@ -425,10 +425,30 @@ def patch_plain(woven, info, names):
         return woven
     m = Model(woven, info)
     lines = woven.split('\n')
+    starts = [0]
+    for l in lines:
+        starts.append(starts[-1] + len(l) + 1)
+    inserts = []      # (offset, text) - body brackets, applied back to front (no line is added)
     for (ln, fid) in m.fns:
         if fid in names and '@@ISOLATED' not in lines[ln - 1]:
             lines[ln - 1] = re.sub(r'^(\s*)((?:pub(?:\([a-z]+\))? )?(?:const )?fn )', r'\1#[verifier::external_body] /*@@ISOLATED*/ \2', lines[ln - 1], count=1)
-    return '\n'.join(lines)
+    text = '\n'.join(lines)
+    for mm in list(re.finditer(r'/\*@@ISOLATED\*/ [^\n]*?fn \w+', text)):
+        ob = text.find('{', mm.end())
+        semi = text.find(';', mm.end())
+        if ob < 0 or (0 <= semi < ob):
+            continue
+        if text[ob + 1:ob + 18] == ' #[cfg(any())] {':
+            continue                      # already bracketed by the weaver
+        try:
+            cb = W.match_brace(text, ob)
+        except Exception:
+            continue
+        inserts.append((cb, '} unimplemented!() '))
+        inserts.append((ob + 1, ' #[cfg(any())] {'))
+    for off, t in sorted(inserts, reverse=True):
+        text = text[:off] + t + text[off:]
+    return text
 
 
 def _collect_unit_once(unit, vacuity, isolate, isolate_plain=()):
